@@ -154,6 +154,10 @@ def _store_source_case(cls, leak):
         wn.set_links_for_node(n, inlet=cx.seq(nin, INL, n, label="inlet", facts=lambda i: [IS_L(INL(cx.t(n), i))]),
                               outlet=cx.seq(nout, OUTL, n, label="outlet", facts=lambda i: [IS_L(OUTL(cx.t(n), i))]))
         m = _model(cx)
+        if cx.is_symbolic():
+            # sampling hints (used when models of the precondition are run on the real code): at least one link on either side, unequal non-zero flows
+            nt_ = cx.t(n)
+            cx.hint(cx.t(nin) >= 1, cx.t(nout) >= 1, _in_sum(nt_).summand(z3.IntVal(0)) == real_val(0.013), _out_sum(nt_).summand(z3.IntVal(0)) == real_val(0.007))
         cx.target(hyd.store_results_in_network, wn, m)
 
         def post(out):
